@@ -120,10 +120,13 @@ class Model(object):
         loop = loops[0]
         i = body.index(loop)
         self.pre, self.post = body[:i], body[i + 1:]
-        if norm(loop.test) != 'self.pos < len(path_expr)' or not loop.body or norm(loop.body[0]) != 'c = path_expr[self.pos]' \
-                or norm(loop.body[-1]) != 'self.pos += 1':
+        import re as _re
+        mt = _re.match(r'^self\.pos < len\((\w+)\)$', norm(loop.test))
+        mb = _re.match(r'^c = (\w+)\[self\.pos\]$', norm(loop.body[0])) if loop.body else None
+        if not mt or not mb or norm(loop.body[-1]) != 'self.pos += 1':
             raise AnalysisError('NodePathParser.parse: the driver idiom `while self.pos < len(path_expr): c = path_expr[self.pos]; ...; self.pos += 1` '
                                 'is no longer recognisable')
+        self.bound_var, self.index_var = mt.group(1), mb.group(1)
         self.body = loop.body[1:-1]
         for n in ast.walk(ast.Module(body=self.body, type_ignores=[])):
             if isinstance(n, (ast.Continue, ast.Break)):
@@ -158,7 +161,12 @@ class Model(object):
 
     def prologue(self, first, bare):
         def mk():
-            return {'self': Obj('NodePathParser', {'bare_id_matches_all': bare}), 'path_expr': PStr(first)}
+            # a parser object that has been used before: every piece of per-parse state holds stale values
+            return {'self': Obj('NodePathParser', {'bare_id_matches_all': bare, 'pos': 5, 'current_state': ']', 'current_token': Tok('X'),
+                                                   'current_id': 'STALE', 'current_separator': '.',
+                                                   'current_slice_elements': [Top('int'), Top('int'), Top('int')],
+                                                   'node_path': Obj('NodePath', {'subset_slice': 'STALE', 'components': ['STALE'], 'path_string': 'STALE'})}),
+                    'path_expr': PStr(first)}
 
         def frame():
             f = Frame(self.fi, self.fi.module, 'NodePathParser', 0)
@@ -320,6 +328,19 @@ def explore(repo, rr, per_char=False, bare=True):
     queue = collections.deque()
     seen = {}
     ntrans = 0
+    if m.bound_var != m.index_var:
+        report('driver:bound-mismatch', m.fi.where, 'the scan loop reads %s[self.pos] but stops at len(%s): with leading blanks the last characters of the '
+               'expression are never scanned' % (m.index_var, m.bound_var), ' /001001')
+
+    def check_subset_default(res, r, r1, word_):
+        for e in res.events:
+            if e[0] == 'subset_slice' and r[0] == 'R0':
+                v = e[1]
+                d = ('slice', None, None, None) if bare else 0
+                got = ('slice', v.fields['start'], v.fields['stop'], v.fields['step']) if isinstance(v, Obj) and v.cls == 'slice' else v
+                if got != d:
+                    report('subset-default', m.fi.where, 'a path without subset selector gets subset slice %r instead of the default %r: state of an earlier '
+                           'parse leaks into this one (reset() no longer re-initialises it)' % (got, d), word_)
     # prologue: first non-blank character
     for rep, k, chars in classes:
         if k == 'ws':
@@ -385,6 +406,7 @@ def explore(repo, rr, per_char=False, bare=True):
                     report('step:%s:%s:%s' % (key[0], k, res.outcome), m.fi.where, 'the loop body leaves by %s' % res.outcome, word(h1))
                     continue
                 ncomp = len([e for e in res.events if e[0] == 'component'])
+                check_subset_default(res, r, r1, word(h1))
                 k1 = state_key(res.locals['self'])
                 d1 = d + (1 if ref_newcomp(r, r1) else 0) - ncomp
                 if abs(d1) > 3:
@@ -496,7 +518,7 @@ class ConcreteParser(ParserInterp):
         return ParserInterp.construct(self, cname, args, kwargs, node, frame)
 
 
-def rule_r3(repo):
+def rule_r3(repo, tier='quick'):
     rr = RuleResult('C15.R3', 'printing a parsed path and parsing the printout gives the same path (folded over slice shapes)')
     strm = repo.own_method('NodePath', '__str__')
     parse = repo.own_method('NodePathParser', 'parse')
@@ -516,13 +538,22 @@ def rule_r3(repo):
         if len(res) != 1:
             raise AnalysisError('parse(%r) forks into %d paths on a concrete string' % (text, len(res)))
         return res[0]
-    subsets = ['', '@[0]', '@[1:]', '@[-1]', '@[::2]', '@[-3]', '@[1:5:2]']
-    slices = ['', '[0]', '[3]', '[::]', '[1:]', '[:2]', '[1:5:2]', '[-2]', '[-1]', '[::-1]', '[-3:-1]']
+    subsets = ['', '@[0]', '@[1:]', '@[-1]', '@[::2]', '@[-3]', '@[1:5:2]', '@[:0]', '@[0:0]']
+    slices = ['', '[0]', '[3]', '[::]', '[1:]', '[:2]', '[1:5:2]', '[-2]', '[-1]', '[::-1]', '[-3:-1]', '[:0]', '[0:]', '[0:0]', '[2:0:-1]', '[0::1]']
     n = 0
+    combos = []
     for bare in (True, False):
         for sub in subsets:
             for sl in slices:
                 for sep2 in ('/', '.', '>'):
+                    combos.append((bare, sub, sl, sep2))
+    if tier != 'thorough':
+        # every (subset selector, slice) pair once, separators and the bare-id setting rotating
+        combos = [c for i, c in enumerate(sorted(combos, key=lambda c: (c[1], c[2], c[3], c[0]))) if i % 6 == (i // 6) % 6]
+    for bare, sub, sl, sep2 in combos:
+        for _once in (0,):
+            for _once2 in (0,):
+                for _once3 in (0,):
                     text = '%s/301001%s%sA12101%s' % (sub, slices[(n // 3) % len(slices)], sep2, sl)
                     r1 = do_parse(text, bare)
                     n += 1
@@ -553,7 +584,7 @@ def run(repo, check):
     r1 = rule_r1(repo, check.tier)
     check.add(r1)
     check.run_rule(rule_r2, repo)
-    check.run_rule(rule_r3, repo)
+    check.run_rule(rule_r3, repo, check.tier)
     check.coverage_extra = {
         'states': r1.extra['states'], 'transitions': r1.extra['transitions'], 'traces_validated_against_impl': 0,
         'samples': r1.extra['samples'] or [{'note': 'no product state sampled'}],
